@@ -2416,9 +2416,12 @@ class ArmiObject(metaclass=CompositeModelType):
             component.setNumberDensity(natName, 0.0)  # clear the elemental
             del component.p.numberDensities[natName]
             # add in isotopics
+            # (on top of what the component may already hold of the isotope itself)
             for natNuc in elementalNuclide.getNaturalIsotopics():
                 component.setNumberDensity(
-                    natNuc.name, elementalDensity * natNuc.abundance
+                    natNuc.name,
+                    component.getNumberDensity(natNuc.name)
+                    + elementalDensity * natNuc.abundance,
                 )
 
     def getAverageTempInC(self, typeSpec: TypeSpec = None, exact=False):
